@@ -5,11 +5,13 @@ runs and the correspondence checks compare with furax (`Index.indexPositions` / 
 `Axes.moveaxis`, `Diagonal.apply`, `SV.rot` / `rotT` / `hwp` / `pol`), lifted leaf by leaf.
 
 * `den E o`   — what `o.mv` computes;   `denT E o` — what `o.T.mv` computes (the adjoint map);
-* `SymmetricBandToeplitzOperator` leaves with an un-batched band (`p.vals.shape = [K]`) are interpreted by the
+* `SymmetricBandToeplitzOperator` leaves (band array of shape `bs ++ [K]`, un-batched `bs = []` or batched, the
+  batch axes broadcasting against the leading axes of the data as `jnp.vectorize` does) are interpreted by the
   verified kernel `Toeplitz.toep` (FuraxModel/Toeplitz.lean, property C09), row by row along the last axis of
-  every leaf (`toepLeaf`);
-* leaf classes no reduction rule looks into (dense einsum blocks, Toeplitz with BATCHED bands, observation
-  matrices, opaque operators) are interpreted by an environment `E` of arbitrary homogeneous maps, keyed by the
+  every leaf, each batch row with its own band row (`toepLeaf`, `toepBandAt`);
+* leaf classes no reduction rule looks into (dense einsum blocks, observation matrices, opaque operators; and the
+  degenerate Toeplitz leaf whose band array has rank 0, which Python refuses) are interpreted by an environment
+  `E` of arbitrary homogeneous maps, keyed by the
   Python identity;
 * `InverseOperator(o)` denotes the inverse of `den o` when one exists (exact solver, assumption A4), the zero map
   otherwise; `DiagonalInverseOperator(D)` is the diagonal operator of `where(d != 0, 1/d, 0)`.
@@ -116,26 +118,39 @@ noncomputable def polTMap (k : StokesKind) (n : Nat) (y : V) : V :=
 
 /-! ### the symmetric band Toeplitz kernel: one leaf, row by row along its last axis -/
 
-/-- the number of bands `K` of an UN-BATCHED band array (`band_values.shape = [K]`); `none` for any other shape
-(batched bands `[..., K]` are left to the environment) -/
-def toepK (vals : Tensor Rat) : Option Nat :=
-  match vals.shape with
-  | [K] => some K
-  | _ => none
+/-- the number of bands `K`: the length of the LAST axis of the band array (`band_values.shape = bs ++ [K]`; `bs` are
+the batch axes, `bs = []` for an un-batched band).  `none` only for an array of rank `0`, which the Python
+constructor refuses (`band_values.shape[-1]` raises) — such a leaf is left to the environment. -/
+def toepK (vals : Tensor Rat) : Option Nat := vals.shape.getLast?
 
 /-- the band values as an index function: `band k = vals.data[k]`, cast to `ℝ` -/
 def toepBand (vals : Tensor Rat) (k : Nat) : ℝ := ((vals.data.getD k 0 : Rat) : ℝ)
 
+/-- **the band row of batch row `b`** (NumPy broadcasting of the batch axes, what
+`jnp.vectorize(signature='(n),(k)->(n)')` does): for a band array of shape `bshape = bs ++ [K]` and a data leaf of
+shape `dshape = ds ++ [l]`, the multi-index of the batch row `b` in `ds` (`unravel`) is broadcast into `bs`
+(`bcastIndex`: right-aligned, an axis of length `1` reads index `0`) and flattened (`ravelIdx`) — the same three
+functions `Tensor.broadcastTo` (hence `angleAt`) is made of.  For an un-batched band (`bs = []`) it is `0`. -/
+def bandRow (bshape dshape : List Nat) (b : Nat) : Nat :=
+  ravelIdx bshape.dropLast (bcastIndex bshape.dropLast (unravel dshape.dropLast b))
+
+/-- the band values used on batch row `b` of a leaf of shape `shape`: row `bandRow … b` of the band array seen as a
+matrix with `K` columns -/
+def toepBandAt (K : Nat) (vals : Tensor Rat) (shape : List Nat) (b : Nat) (k : Nat) : ℝ :=
+  toepBand vals (bandRow vals.shape shape b * K + k)
+
 /-- row `b` of a flat row-major vector whose last axis has length `l`, as an index function -/
 def rowOf (l : Nat) (x : V) (b : Nat) (j : Nat) : ℝ := x.getD (b * l + j) 0
 
-/-- `SymmetricBandToeplitzOperator.mv` on one leaf of shape `s ++ [l]`: the output at flat position `b*l + i`
-is `toep (K−1) l band (row b of the input) i` — the banded product `Σ_j [|i−j| < K] band|i−j| · x[b, j]`
-(`Toeplitz.toep`, the specification all four evaluation methods are proved to compute, Props/C09.lean) -/
+/-- `SymmetricBandToeplitzOperator.mv` on one leaf of shape `ds ++ [l]`, band array of shape `bs ++ [K]`: the output at
+flat position `b*l + i` is `toep (K−1) l (band row of b) (row b of the input) i` — the banded product
+`Σ_j [|i−j| < K] band_b|i−j| · x[b, j]` (`Toeplitz.toep`, the specification all four evaluation methods are proved
+to compute, Props/C09.lean), independently for every batch row `b`; the band row of `b` is `toepBandAt`
+(`toepBand` itself when the band is un-batched, `toepBandAt_unbatched`) -/
 noncomputable def toepLeaf (K : Nat) (vals : Tensor Rat) (li _lo : LeafS) (x : V) : V :=
   let l := li.shape.getLastD 1
   (List.range li.size).map fun q =>
-    Toeplitz.toep (K - 1) l (toepBand vals) (rowOf l x (q / l)) (q % l)
+    Toeplitz.toep (K - 1) l (toepBandAt K vals li.shape (q / l)) (rowOf l x (q / l)) (q % l)
 
 /-! ### the environment of uninterpreted leaves -/
 
